@@ -547,10 +547,11 @@ impl<W: 'static, R: 'static, T: 'static> XGenerator<W, R, T> {
         Ok(match gen {
             Self::Slice(inner, inner_start, inner_end) => Self::Slice(
                 inner.clone(),
-                inner_start + start,
+                // (offsets saturate: no generator yields more than usize::MAX elements)
+                inner_start.saturating_add(start),
                 inner_end
                     .iter()
-                    .chain(end.map(|e| e + inner_start).iter())
+                    .chain(end.map(|e| e.saturating_add(*inner_start)).iter())
                     .min()
                     .cloned(),
             ),
